@@ -572,7 +572,7 @@ func TestVerif_C06(t *testing.T) {
 	pairAttrs := vrt.Pick(r, oneAttr, allAttrs)
 	keyOct := c06Strings(c06KeyOct, 2, true)
 	valOct2 := c06Strings(c06ValOct, 2, false)
-	valOctN := c06Strings(c06ValOct, vrt.Pick(r, 3, 4), false)
+	valOctN := c06Strings(c06ValOct, vrt.Pick(r, 2, 4), false)
 	r.Rule(fmt.Sprintf("(a) response cookies: each of key/value/domain/path in turn over all strings of <=%d symbols of {a ; = \" SP CR LF , \\} plus %d attribute-looking payloads x all %d attribute combinations "+
 		"(expiry {none, epoch+1s, 9999-12-31}, max-age {0,-1,5}, Secure, HttpOnly, SameSite x5, Partitioned); every pair of those four arguments over strings <=2 x %d attribute combinations; "+
 		"cookie-octet keys (<=2 token symbols) x values (<=2) x domain {none, example.com} x path {none, /p/q} x %d combinations and %d key(s) x values <=%d x the same x all combinations. "+
@@ -581,7 +581,7 @@ func TestVerif_C06(t *testing.T) {
 		"(b) request cookies: SetCookie sequences: 1 call with key <=3, value <=%d adversarial symbols; 2 calls (key<=1,value<=%d then key<=1,value<=2); 3 calls (<=1,<=1); and <=3 calls over cookie-octet keys/values; "+
 		"RequestHeader.Write->Read->VisitAllCookie/Cookies() and net/http Request.Cookies() never see more cookies than distinct keys set, octet inputs are seen exactly. "+
 		"Non-trivial: (a) a setter had to neutralise its argument or the case is a cookie-octet round trip; (b) an argument contains a delimiter (; = SP \" , \\ CR LF) or the case is an octet round trip.",
-		advLen, len(c06Words)*3, len(allAttrs), len(pairAttrs), len(oneAttr), vrt.Pick(r, 1, 3), vrt.Pick(r, 3, 4), advLen, vrt.Pick(r, 2, 3)))
+		advLen, len(c06Words)*3, len(allAttrs), len(pairAttrs), len(oneAttr), vrt.Pick(r, 1, 3), vrt.Pick(r, 2, 4), advLen, vrt.Pick(r, 2, 3)))
 	r.Assume("RFC 6265: cookie-name is a token, so '=' and the other separators (cookie-octets, but not token characters) and the empty name are outside the byte-exact round-trip claim for keys",
 		"when max-age is set the Expires attribute is deliberately not serialised (documented on Cookie.SetMaxAge); expiry is compared only when max-age is unset, and must be absent otherwise",
 		"the 'attributes that were set' are read from the Cookie getters after all setters ran (SetSameSite(None) and SetPartitioned(true) switch Secure/Path on by design)",
